@@ -26,3 +26,10 @@ import LapyVerif.Bridge.Fem
 #print axioms LapyVerif.Bridge.DiffTetNeg_div
 #print axioms LapyVerif.Bridge.fem_tria_A
 #print axioms LapyVerif.Bridge.fem_tet_A
+#print axioms LapyVerif.Bridge.census_DiffTri_pcCount
+#print axioms LapyVerif.Bridge.census_DiffTetPos_pcCount
+#print axioms LapyVerif.Bridge.census_DiffTetNeg_pcCount
+#print axioms LapyVerif.Bridge.census_FemTria_pcCount
+#print axioms LapyVerif.Bridge.census_FemTriaMass_pcCount
+#print axioms LapyVerif.Bridge.census_FemTriaAniso_pcCount
+#print axioms LapyVerif.Bridge.census_FemTet_pcCount
